@@ -146,7 +146,8 @@ impl<B: WebBody> GrpcWebCall<B> {
     pub fn verif_other_directions(&mut self, cx: &mut Context) -> (r: Poll<Option<Result<Frame<Bytes>, Status>>>)
         requires !(old(self).client && old(self).direction == Direction::Decode)
     { unimplemented!() }
-    // A-tonic-web-02: poll_decode in binary mode (Encoding::None) forwards the inner body's frames with their bytes copied
+    // A-tonic-web-02 (PROVED in unit webserver, clauses N1/N2 of poll_decode; linked here as a callee contract): poll_decode in
+    // binary mode (Encoding::None) forwards the inner body's frames with ALL their bytes copied
     // (self.project().inner.poll_frame(cx).map_ok(..copy_to_bytes..).map_err(internal_error)); it must not be called once
     // the inner body has ended
     #[verifier::external_body]
@@ -250,8 +251,8 @@ def build():
                 ('before', 'match ready!(me.as_mut().poll_decode(cx)) {', 'let ghost r_before = me.inner.received(); let ghost d_before = me.decoded@; let ghost n0 = old(self).inner.received().len() as int;'),
                 ('after', '.put(incoming_buf.into_data().unwrap());', 'proof { let r2 = me.inner.received(); assert(r2.skip(n0) =~= r_before.skip(n0) + r2.skip(r_before.len() as int)); assert(r2.take(n0) =~= old(self).inner.received()); assert((old(self).decoded@ + r_before.skip(n0)) + r2.skip(r_before.len() as int) =~= old(self).decoded@ + (r_before.skip(n0) + r2.skip(r_before.len() as int))); assert((tcons + d_before) + r2.skip(r_before.len() as int) =~= tcons + (d_before + r2.skip(r_before.len() as int))); }'),
                 ('after', 'if let Some(frame_len) = trailers_frame_len(&buf[..]) {', 'let ghost old_buf = buf@; proof { lemma_walk_bounds(buf@, 0); }'),
-                ('before', 'return Poll::Ready(Some(Ok(Frame::data(buf.split_to(len).freeze()))));', 'proof { lemma_walk_bounds(buf@, 0); lemma_walk_prefix(buf@, 0, len as int); }', 0),
-                ('before', 'return Poll::Ready(Some(Ok(Frame::data(buf.split_to(len).freeze()))));', 'proof { lemma_walk_bounds(buf@, 0); lemma_walk_prefix(buf@, 0, len as int); }', 1),
+                ('before', 'return Poll::Ready(Some(Ok(Frame::data(buf.split', 'proof { lemma_walk_bounds(buf@, 0); lemma_walk_prefix(buf@, 0, len as int); }', 0),
+                ('before', 'return Poll::Ready(Some(Ok(Frame::data(buf.split', 'proof { lemma_walk_bounds(buf@, 0); lemma_walk_prefix(buf@, 0, len as int); }', 1),
                 ('after', 'let frame = buf.split_to(frame_len).freeze();', 'proof { assert(frame@.skip(1)[0] == old_buf.skip(1)[0] && frame@.skip(1)[1] == old_buf.skip(1)[1] && frame@.skip(1)[2] == old_buf.skip(1)[2] && frame@.skip(1)[3] == old_buf.skip(1)[3]); lemma_trailer_frames_push(tcons, frame@); assert((tcons + frame@) + buf@ =~= tcons + (frame@ + buf@)); assert(frame@ + buf@ =~= old_buf); tcons = tcons + frame@; }')],
          loops={0: dict(invariant=[
              'me.wf()', 'me.client && me.direction == Direction::Decode',
